@@ -16,7 +16,7 @@ RULE = ("file alphabet: 5 single files with the same columns (3 / 1 / 0 / 3 / 4 
         "the working directory, './'-prefixed, bare names in the working directory} x shapes flat / hive / two-level hive "
         "(verify=False in quick, both in thorough); memory file-system with three spellings x {fs=, open_with=}. Directory content: the five files plus stray non-Parquet files, a "
         "_common_metadata and one '.parq' file; every directory holding a subset of 1..3 of the files. Sub-datasets "
-        "{plain, partitioned in key=value directories, partitioned in plainly named directories, categorical, directory of single files summarised by merge() through the fast and the legacy path} x {paths, objects, merge} x verify x root, lists of 2..3; lists mixing files and "
+        "{plain, plain with a first sub-dataset of zero rows, partitioned in key=value directories, partitioned in plainly named directories, categorical, directory of single files summarised by merge() through the fast and the legacy path} x {paths, objects, merge} x verify x root, lists of 2..3; lists mixing files and "
         "sub-datasets. Schema-incompatible file (7 kinds: one dtype, one name, one extra column, column order, text/bytes, "
         "everything) at every position x {paths, objects, merge() default, directory, glob} under verification (must raise). "
         "Categorical label unions of 127 / 128 / 300 labels (quick) and 32768 / 40000 (thorough) from files below each width; "
@@ -95,7 +95,7 @@ def points(tier):
                 pts.append({"shape": shape, "entry": entry, "verify": verify, "root": "inferred", "maxlen": 3,
                             "dirvar": "subsets"})
     # sub-datasets
-    for kind in ("plain", "part", "cat", "merged", "part_plain"):
+    for kind in ("plain", "part", "cat", "merged", "part_plain", "plain0"):
         for entry in ("paths", "objects", "merge"):
             for verify in (False, True):
                 for root in ("inferred", "given"):
@@ -445,6 +445,11 @@ def run_sub(p):
                 "s": pd.Series(["d%d_%d" % (i, j) for j in range(3)], dtype=object)}
         rows = [(i * 10 + j, "d%d_%d" % (i, j)) for j in range(3)]
         kw = {"row_group_offsets": [0, 2]}
+        if kind == "plain0" and i == 0:
+            # a sub-dataset without rows (its directory holds summary files only)
+            data = {k: v.iloc[:0] for k, v in data.items()}
+            rows = []
+            kw = {}
         if kind == "cat":
             lab = [labels[i][j % 2] for j in range(3)]
             data["c"] = pd.Categorical(lab, categories=labels[i])
